@@ -19,7 +19,9 @@ EXTRA = {"C01-m1": ["C06"], "C01-m2": ["C02"], "C02-m1": ["C07"], "C02-m2": ["C0
          "C01-m7": ["C07"], "C01-m8": ["C16", "C15"], "C02-m8": ["C09"], "C03-m7": ["C02"], "C04-m7": ["C07"], "C04-m8": ["C11"],
          "C05-m8": ["C09", "C10"], "C06-m7": ["C02"], "C06-m8": ["C01"], "C08-m7": ["C03", "C02"], "C08-m8": ["C03"], "C11-m7": ["C02"],
          "C11-m8": ["C02", "C04"], "C12-m8": ["C11"], "C13-m7": ["C14"], "C14-m8": ["C13"], "C15-m8": ["C16"], "C17-m7": ["C07"],
-         "C18-m8": ["C04"]}
+         "C18-m8": ["C04"],
+         "C01-m9": ["C06"], "C01-m10": ["C02", "C09"], "C02-m10": ["C09"], "C03-m9": ["C02", "C10"], "C03-m10": ["C14"], "C04-m9": ["C02"],
+         "C04-m10": ["C18"], "C06-m9": ["C01"], "C06-m10": ["C18", "C02"]}
 
 
 def main():
